@@ -423,3 +423,24 @@ def seq_program(s):
         srcs = [lit(a, guess_ty(a), pre, counter) for a in args]
         body.append(f"v.{m}({', '.join(srcs)});")
     return "fn main() { " + " ".join(pre + body) + " println(v); }"
+
+
+RETURNING = ("pop", "pop_front", "last", "len")
+
+
+def seq_program_shown(s, held):
+    """The sequence as a program that also prints what the value-returning members answer. `held`: every member is
+    first taken as a value (`let m3 = v.pop;`), all of them before the first call, and the calls go through those values:
+    a member value must behave like the direct call at the time of the call, whatever happened to the list in between."""
+    pre, counter = [], [0]
+    body = [f"let v: [int] = {lit(s['recv'], ('list', 'int'), pre, counter)};"]
+    calls = []
+    for k, (m, args) in enumerate(s["steps"]):
+        srcs = [lit(a, guess_ty(a), pre, counter) for a in args]
+        if held:
+            body.append(f"let m{k} = v.{m};")
+            call = f"m{k}({', '.join(srcs)})"
+        else:
+            call = f"v.{m}({', '.join(srcs)})"
+        calls.append(f"println({call});" if m in RETURNING else f"{call};")
+    return "fn main() { " + " ".join(pre + body + calls) + " println(v); }"
